@@ -61,6 +61,10 @@ class FlowPolicy(Policy):
         self.raising_suffixes = ()
         self.trace_handlers = False
         self.widen_locals = False
+        # scenario / table harnesses (no injected exceptions): a call of a helper defined in the repository that the rule neither summarises nor
+        # tracks as an event is interpreted, not left opaque - so extracting some lines into a helper (method, nested or module-level function) changes nothing
+        self.auto_inline = True
+        self.auto_inline_max_stmts = 30
         if inline:
             self.inline_depth = 3
 
@@ -69,8 +73,23 @@ class FlowPolicy(Policy):
             return self.globals_[name]
         if self.program is not None and name in self.program.classes:
             return ClassV(name)
-        # module-level `NAME = re.compile(<literal>)` of the unit's own module: the compiled pattern itself
         rel = getattr(interp, "module_rel", None)
+        if self.program is not None and rel and self.auto_inline:
+            # a module-level function of the unit's own module (a helper extracted from the function under analysis)
+            try:
+                mod = self.program.module(rel)
+            except Exception:  # noqa
+                mod = None
+            if mod is not None:
+                for st in mod.body:
+                    if isinstance(st, (ast.FunctionDef, ast.AsyncFunctionDef)) and st.name == name:
+                        return FuncV(st, name=name)
+                    if isinstance(st, ast.Assign) and len(st.targets) == 1 and isinstance(st.targets[0], ast.Name) and st.targets[0].id == name and name.isupper():
+                        try:
+                            return _lit(ast.literal_eval(st.value))
+                        except Exception:  # noqa - not a literal
+                            break
+        # module-level `NAME = re.compile(<literal>)` of the unit's own module: the compiled pattern itself
         if self.program is not None and rel and name.isupper():
             node = None
             for r in [rel] + sorted(m for m in self.program.modules if m != rel):
@@ -145,6 +164,12 @@ class FlowPolicy(Policy):
             return None  # let the interpreter inline it
         if isinstance(fval, FuncV) and fval.closure and self.inline_nested(fval):
             return None
+        if self.auto_inline and not ev and isinstance(fval, FuncV) and getattr(fval, "node", None) is not None and not isinstance(fval.node, ast.Lambda) \
+                and label not in self.raising_labels and not self.is_no_raise(label) and self._small_local_helper(interp, fval) \
+                and (not isinstance(fval.node, ast.AsyncFunctionDef) or isinstance(getattr(node, "_parent", None), ast.Await)):  # (calling a coroutine function runs nothing until it is awaited)
+            if self.inline_depth < 2:
+                self.inline_depth = 2
+            return None
         # un-inlined call
         if label in self.raising_labels or (label and any(label.endswith(x) for x in self.raising_suffixes)):
             out.add("raise", cfg.set("$exc", ExcV("Exception", f"user code via {label} L{getattr(node, 'lineno', 0)}")))
@@ -155,6 +180,20 @@ class FlowPolicy(Policy):
         if isinstance(fval, ClassV):
             return [(cfg, App("new", (fval, *args)))]
         return [(cfg, App("res", (Const(label or "?"), Const(getattr(node, "lineno", 0)), *args)))]
+
+    def _small_local_helper(self, interp, fval):
+        """A small function of the module under analysis (same class or module level): the shape an 'extract method' refactoring produces."""
+        node = fval.node
+        if sum(1 for n in ast.walk(node) if isinstance(n, ast.stmt)) > self.auto_inline_max_stmts:
+            return False
+        rel = getattr(interp, "module_rel", None)
+        if not rel or self.program is None:
+            return False
+        try:
+            mod = self.program.module(rel)
+        except Exception:  # noqa
+            return False
+        return any(n is node for n in ast.walk(mod))
 
     def keep_local(self, name):
         return self.locals_ is None or name in self.locals_ or name.startswith("$")
@@ -335,3 +374,14 @@ def module_constants(program, rel):
                 kind = {"Tuple": "tuple", "List": "list", "Set": "set"}[type(v).__name__]
                 consts[st.targets[0].id] = ListV([Const(e.value) for e in v.elts], kind)
     return consts
+
+
+def _lit(v):
+    """A Python literal (module-level constant table) as an abstract value."""
+    if isinstance(v, (list, tuple)):
+        return ListV(tuple(_lit(x) for x in v), "tuple" if isinstance(v, tuple) else "list")
+    if isinstance(v, (set, frozenset)):
+        return ListV(tuple(_lit(x) for x in sorted(v, key=repr)), "set")
+    if isinstance(v, dict):
+        return DictV([(_lit(k), _lit(x)) for k, x in v.items()])
+    return Const(v)
